@@ -209,9 +209,29 @@ fn gen_weights(r: &mut Rng, n: usize) -> (&'static str, Vec<f64>) {
     }
 }
 
-/// every partial sum of the weights, in any association, is exact
+/// every partial sum of the weights, in any association, is exact: all weights are integer
+/// multiples of one power of two 2^e and at most 2^(e+40), fewer than 4096 of them
 fn weights_exact(ws: &[f64]) -> bool {
-    ws.iter().all(|w| w.is_finite() && *w >= 0.0 && *w <= 1048576.0 && (w * 1024.0).fract() == 0.0) && ws.len() < 4096
+    // w = m * 2^k with m odd (k = exponent of the lowest set bit)
+    let low = |w: f64| -> i32 {
+        let b = w.to_bits();
+        let (m, e) = if (b >> 52) & 0x7ff == 0 { (b & ((1 << 52) - 1), -1074) } else { ((b & ((1 << 52) - 1)) | (1 << 52), ((b >> 52) & 0x7ff) as i32 - 1075) };
+        e + m.trailing_zeros() as i32
+    };
+    if ws.len() >= 4096 || !ws.iter().all(|w| w.is_finite() && *w >= 0.0) {
+        return false;
+    }
+    let nz: Vec<f64> = ws.iter().cloned().filter(|w| *w > 0.0).collect();
+    if nz.is_empty() {
+        return true;
+    }
+    let e = nz.iter().map(|w| low(*w)).min().unwrap();
+    // every weight < 2^(e+41): top exponent of w is floor(log2 w)
+    nz.iter().all(|w| {
+        let b = w.to_bits();
+        let top = if (b >> 52) & 0x7ff == 0 { -1074 + (63 - (b & ((1 << 52) - 1)).leading_zeros() as i32) } else { ((b >> 52) & 0x7ff) as i32 - 1023 };
+        top - e <= 40
+    })
 }
 
 fn json_f64s(xs: &[f64]) -> String {
@@ -340,49 +360,34 @@ fn pick_order(r: &mut Rng, max: u32) -> u32 {
     }
 }
 
-/// Known finding `hilbert-tiny-weights-hang`: `weighted_quantiles` compares partial sums with the
-/// ABSOLUTE tolerance f64::EPSILON (`approx::abs_diff_eq!`), so with a total weight of that
-/// magnitude the quantile search does not terminate (Proofs/WqNonTermination.v).  The family is
-/// generated only when the class is listed in known_findings.json (or VERIF_C09_TINY is set), so
-/// that the check does not turn red before the integrator has recorded the finding.
-const KF_TINY: &str = "hilbert-tiny-weights-hang";
-fn tiny_enabled() -> bool {
-    if std::env::var("VERIF_C09_TINY").is_ok() {
-        return true;
-    }
-    // <root>/.cache/target*/<profile>/c09  ->  <root>/known_findings.json
-    let root = std::env::current_exe().ok().and_then(|e| e.ancestors().nth(4).map(|p| p.to_path_buf()));
-    match root.and_then(|r| std::fs::read_to_string(r.join("known_findings.json")).ok()) {
-        Some(t) => t.contains(KF_TINY),
-        None => false,
-    }
-}
-
+/// Tiny total weights (round 4): before the repair of `weighted_quantiles` (absolute epsilon in
+/// `approx::abs_diff_eq!`) HilbertCurve did not return when the total weight was of the order of
+/// f64::EPSILON or below (Proofs/WqNonTermination.v).  The family is part of every run: against
+/// the unrepaired code it yields hangs (= failing inputs).
 fn case_hilbert(r: &mut Rng, big: bool) -> Out {
-    let mut dim = if r.chance(1, 2) { 2 } else { 3 };
-    // decided from the case's own random stream only (replay with --only stays exact)
-    let tiny = r.chance(1, if big { 800 } else { 150 }) && tiny_enabled();
-    if tiny {
-        dim = 2;
-    }
+    let dim = if r.chance(1, 2) { 2 } else { 3 };
+    let tiny = r.chance(1, 25);
     let (pfam, pts) = if tiny {
-        let n = r.range(3, 7) as usize;
-        ("tiny", (0..n).map(|_| [r.below(8) as f64, r.below(8) as f64, 0.0]).collect::<Vec<_>>())
+        let n = r.range(3, 9) as usize;
+        ("tiny", (0..n).map(|_| [r.below(8) as f64, r.below(8) as f64, if dim == 3 { r.below(8) as f64 } else { 0.0 }]).collect::<Vec<_>>())
     } else {
         gen_points(r, dim, big)
     };
     let n = pts.len();
     let (wfam, ws) = if tiny {
-        let scale = *r.pick(&[1.0e-16f64, 3.0e-16, 1.0e-17, 5.0e-16]);
-        ("tiny_weights", (0..n).map(|_| scale * (1.0 + r.below(1000) as f64 / 500.0)).collect::<Vec<_>>())
+        // power-of-two scales keep the sums exact (full model compared); decimal ones do not
+        let (name, scale) = *r.pick(&[
+            ("tiny_2^-55", 2.0f64.powi(-55)), ("tiny_2^-60", 2.0f64.powi(-60)), ("tiny_2^-1000", 2.0f64.powi(-1000)),
+            ("tiny_subnormal", f64::from_bits(1)), ("tiny_1e-16", 1.0e-16), ("tiny_1e-17", 1.0e-17), ("tiny_1e-300", 1.0e-300),
+        ]);
+        (name, (0..n).map(|_| scale * (1 + r.below(9)) as f64).collect::<Vec<_>>())
     } else {
         gen_weights(r, n)
     };
-    let part_count = if tiny { r.range(4, 7) as usize } else { r.range(1, n as i64 + 2) as usize };
+    let part_count = if tiny { r.range(3, 8) as usize } else { r.range(1, n as i64 + 2) as usize };
     let max_order = if dim == 2 { 32 } else { 21 };
     let order = if tiny { r.range(1, 3) as u32 } else { pick_order(r, max_order) };
-    // a hung run keeps its pool busy until the harness exits: small pools for the known hang
-    let threads = if tiny { *r.pick(&[1usize, 2]) } else { *r.pick(&POOLS) };
+    let threads = *r.pick(&POOLS);
     // malformed stream (outside the contract; HilbertCurve does not check lengths, the model
     // follows its zips): weights / ids shorter or longer than the points
     let mut ws = ws;
@@ -402,10 +407,7 @@ fn case_hilbert(r: &mut Rng, big: bool) -> Out {
 
     let _ = coupe::verif::drain();
     let (pts2, ws2, p02) = (pts.clone(), ws.clone(), p0.clone());
-    // class of the known finding, from the INPUT alone: total weight of the order of f64::EPSILON
-    let total: f64 = ws.iter().sum();
-    let kf_tiny = !ws.is_empty() && ws.iter().all(|w| *w > 0.0) && total <= 1.0e-14;
-    let res = guarded(threads, Duration::from_secs(if kf_tiny { 6 } else { 20 }), move || {
+    let res = guarded(threads, Duration::from_secs(if tiny { 8 } else { 20 }), move || {
         let mut p = p02;
         let mut alg = coupe::HilbertCurve { part_count, order };
         let r = if dim == 2 {
@@ -440,8 +442,7 @@ fn case_hilbert(r: &mut Rng, big: bool) -> Out {
         coq_impl(&res)
     );
     let json = format!(
-        "{{\"stream\":\"hilbert\",{}\"dim\":{},\"points\":{},\"weights\":{},\"ids_len\":{},\"part_count\":{},\"order\":{},\"threads\":{},\"exact_sums\":{},\"hilbert_indices\":{},\"hilbert_splits\":{},\"impl\":{}}}",
-        if kf_tiny { format!("\"kf\":\"{}\",", KF_TINY) } else { String::new() },
+        "{{\"stream\":\"hilbert\",\"dim\":{},\"points\":{},\"weights\":{},\"ids_len\":{},\"part_count\":{},\"order\":{},\"threads\":{},\"exact_sums\":{},\"hilbert_indices\":{},\"hilbert_splits\":{},\"impl\":{}}}",
         dim, json_points(&pts, dim), json_f64s(&ws), plen, part_count, order, threads, exact,
         json_u64s(&idx), json_u64s(&splits), json_impl(&res)
     );
@@ -451,7 +452,7 @@ fn case_hilbert(r: &mut Rng, big: bool) -> Out {
         key: format!("hil|{}|{:?}|{:?}|{}|{}|{}|{}", dim, pts, ws, plen, part_count, order, threads),
         nontrivial: n >= 3 && part_count >= 2 && order <= max_order && !malformed,
         family: format!("hil/{}d/{}/{}{}", dim, pfam, wfam, if malformed { "/len_mismatch" } else { "" }),
-        hang: matches!(res, Guarded::Hang) && !kf_tiny,
+        hang: matches!(res, Guarded::Hang),
         panic: matches!(res, Guarded::Panic(_)),
     }
 }
